@@ -15,6 +15,14 @@
  *   merge <r> <s>
  *   obs <r>                         print the observation line of document r
  *   reset                           end of a program: frees every kept result and all documents
+ *   scal <r>                        puts of every scalar kind on the root, AMitemResult refcounting
+ *   text <r>                        text object: splices (also at SIZE_MAX / out of range), marks, clear, cursor, AMtext
+ *   chg <r>                         AMgetChanges + change accessors, last local change, change by hash, missing deps
+ *   apply <r>                       a new document built by AMapplyChanges / AMload / AMloadIncremental equals r
+ *   fork <r>                        AMfork (+ at heads), AMsetActorId, edit, merge back, AMclone, AMequal
+ *   edge <r>                        SIZE_MAX and out-of-range positions, empty/reversed ranges, rollback, map range
+ *   errs <r>                        malformed inputs to the parsers and wrong-object-type calls return errors
+ *   sync <r> <s>                    the sync protocol between r and s through the C API until quiescence
  *   mode <0|1|2>                    result-freeing discipline: 0 free at once, 1 keep and free in reverse at exit,
  *                                   2 keep every second result until exit
  * Observation line:  O <r> heads=<hex,..> save=<hex> k1=[..] l=[..] text/keys read through items and byte spans.
@@ -32,6 +40,7 @@ static AMresult *docres[MAXDOC];
 static AMresult **kept = NULL;
 static size_t nkept = 0, capkept = 0;
 static int mode = 0;
+static AMresult *baseheads = NULL;
 static size_t counter = 0;
 
 static void release(AMresult *r) {
@@ -62,6 +71,10 @@ static void print_item(AMitem *it) {
     case AM_VAL_TYPE_NULL: printf("n"); break;
     case AM_VAL_TYPE_STR: { AMbyteSpan s; AMitemToStr(it, &s); printf("s:%.*s", (int)s.count, (const char *)s.src); break; }
     case AM_VAL_TYPE_OBJ_TYPE: printf("o"); break;
+    case AM_VAL_TYPE_BYTES: { AMbyteSpan s; AMitemToBytes(it, &s); printf("y:"); hex(s.src, s.count); break; }
+    case AM_VAL_TYPE_TIMESTAMP: { int64_t v; AMitemToTimestamp(it, &v); printf("t:%lld", (long long)v); break; }
+    case AM_VAL_TYPE_CHANGE_HASH: { AMbyteSpan s; AMitemToChangeHash(it, &s); printf("h:"); hex(s.src, s.count); break; }
+    case AM_VAL_TYPE_VOID: printf("v"); break;
     default: printf("?%d", (int)AMitemValType(it));
   }
 }
@@ -72,6 +85,316 @@ static const AMobjId *list_of(int r, AMresult **hold) {
   AMitem *it = AMresultItem(*hold);
   if (AMitemValType(it) != AM_VAL_TYPE_OBJ_TYPE) return NULL;
   return AMitemObjId(it);
+}
+
+static const char *st(AMresult *r) { const char *o = AMresultStatus(r) == AM_STATUS_OK ? "ok" : "err"; release(r); return o; }
+
+static void print_heads(AMdoc *d) {
+  AMresult *h = AMgetHeads(d); AMitems hs = AMresultItems(h); AMitem *it; int first = 1;
+  while ((it = AMitemsNext(&hs, 1)) != NULL) { AMbyteSpan b; if (AMitemToChangeHash(it, &b)) { if (!first) printf(","); first = 0; hex(b.src, b.count); } }
+  release(h);
+}
+
+
+static void cmd_scal(int r) {
+  AMdoc *d = docs[r];
+  static const uint8_t by[3] = {0, 1, 255};
+  printf("K %s", st(AMmapPutBool(d, AM_ROOT, AMstr("sb"), true)));
+  printf(" %s", st(AMmapPutBytes(d, AM_ROOT, AMstr("sy"), AMbytes(by, 3))));
+  printf(" %s", st(AMmapPutNull(d, AM_ROOT, AMstr("sn"))));
+  printf(" %s", st(AMmapPutStr(d, AM_ROOT, AMstr("ss"), AMstr("h\xc3\xa9llo"))));
+  printf(" %s", st(AMmapPutTimestamp(d, AM_ROOT, AMstr("st"), -5)));
+  printf(" %s", st(AMmapPutUint(d, AM_ROOT, AMstr("su"), 9223372036854775809ULL)));
+  commit(r);
+  /* an item outlives the result it came from once AMitemResult took a reference */
+  AMresult *g = AMmapGet(d, AM_ROOT, AMstr("ss"), NULL);
+  AMresult *own = AMitemResult(AMresultItem(g));
+  AMresultFree(g);
+  printf(" own="); print_item(AMresultItem(own));
+  release(own);
+  /* items built by the caller compare equal to the ones read back */
+  AMresult *mine = AMitemFromStr(AMstr("h\xc3\xa9llo"));
+  AMresult *g2 = AMmapGet(d, AM_ROOT, AMstr("ss"), NULL);
+  AMresult *g3 = AMmapGet(d, AM_ROOT, AMstr("ss"), NULL), *mine2 = AMitemFromStr(AMstr("h\xc3\xa9llo"));
+  printf(" eq=%d eq2=%d", (int)AMitemEqual(AMresultItem(g3), AMresultItem(g2)), (int)AMitemEqual(AMresultItem(mine), AMresultItem(mine2)));
+  release(g3); release(mine2);
+  AMresult *cat = AMresultCat(mine, g2);
+  printf(" cat=%zu", AMresultSize(cat));
+  release(cat); release(g2); release(mine);
+  printf("\n");
+}
+
+static void print_marks(AMdoc *d, const AMobjId *t, const AMitems *heads) {
+  AMresult *mk = AMmarks(d, t, heads);
+  if (AMresultStatus(mk) != AM_STATUS_OK) { printf("err"); release(mk); return; }
+  AMitems mi = AMresultItems(mk); AMitem *it; int first = 1;
+  while ((it = AMitemsNext(&mi, 1)) != NULL) {
+    const AMmark *m; if (!AMitemToMark(it, &m)) continue;
+    AMbyteSpan n = AMmarkName(m);
+    if (!first) printf(","); first = 0;
+    printf("%.*s:%zu:%zu:", (int)n.count, (const char *)n.src, AMmarkStart(m), AMmarkEnd(m));
+    AMresult *v = AMmarkValue(m); print_item(AMresultItem(v)); release(v);
+  }
+  release(mk);
+}
+
+static void cmd_text(int r) {
+  AMdoc *d = docs[r];
+  AMresult *hb = AMgetHeads(d); AMitems hbi = AMresultItems(hb);
+  AMresult *to = AMmapPutObject(d, AM_ROOT, AMstr("t"), AM_OBJ_TYPE_TEXT);
+  const AMobjId *t = AMitemObjId(AMresultItem(to));
+  printf("T %s", st(AMspliceText(d, t, 0, 0, AMstr("hello w\xc3\xb6rld"))));
+  printf(" %s", st(AMspliceText(d, t, 2, 3, AMstr("XY"))));
+  commit(r);
+  AMresult *hm = AMgetHeads(d); AMitems hmi = AMresultItems(hm);
+  printf(" %s", st(AMspliceText(d, t, SIZE_MAX, 0, AMstr("!"))));
+  printf(" %s", st(AMspliceText(d, t, 500, 0, AMstr("?"))));
+  AMresult *bv = AMitemFromBool(true), *iv = AMitemFromInt(7);
+  printf(" %s", st(AMmarkCreate(d, t, 1, 6, AM_MARK_EXPAND_BOTH, AMstr("bold"), AMresultItem(bv))));
+  printf(" %s", st(AMmarkCreate(d, t, 3, 8, AM_MARK_EXPAND_NONE, AMstr("size"), AMresultItem(iv))));
+  printf(" %s", st(AMmarkClear(d, t, 2, 4, AM_MARK_EXPAND_BOTH, AMstr("bold"))));
+  printf(" %s", st(AMmarkCreate(d, t, 4, 2, AM_MARK_EXPAND_NONE, AMstr("rev"), AMresultItem(iv))));
+  release(bv); release(iv);
+  commit(r);
+  AMresult *tx = AMtext(d, t, NULL); AMbyteSpan s = {0};
+  if (AMresultStatus(tx) == AM_STATUS_OK && AMitemToStr(AMresultItem(tx), &s)) printf(" text=%.*s", (int)s.count, (const char *)s.src); else printf(" text=err");
+  release(tx);
+  printf(" len=%zu type=%d marks=", AMobjSize(d, t, NULL), (int)AMobjObjType(d, t));
+  print_marks(d, t, NULL);
+  /* the same reads at earlier heads */
+  AMresult *tm = AMtext(d, t, &hmi);
+  if (AMresultStatus(tm) == AM_STATUS_OK && AMitemToStr(AMresultItem(tm), &s)) printf(" then=%.*s", (int)s.count, (const char *)s.src); else printf(" then=err");
+  release(tm);
+  printf(" lenthen=%zu lenbefore=%zu marksthen=", AMobjSize(d, t, &hmi), AMobjSize(d, t, &hbi));
+  print_marks(d, t, &hmi);
+  /* cursors */
+  AMresult *cu = AMgetCursor(d, t, 3, NULL); const AMcursor *c = NULL;
+  if (AMresultStatus(cu) == AM_STATUS_OK && AMitemToCursor(AMresultItem(cu), &c)) {
+    AMbyteSpan cs = AMcursorStr(c);
+    printf(" cur=%.*s", (int)cs.count, (const char *)cs.src);
+    AMresult *cp = AMgetCursorPosition(d, t, c, NULL); printf(" pos="); if (AMresultStatus(cp) == AM_STATUS_OK) print_item(AMresultItem(cp)); else printf("err"); release(cp);
+    AMresult *c2 = AMcursorFromStr(cs); const AMcursor *cc = NULL;
+    if (AMresultStatus(c2) == AM_STATUS_OK && AMitemToCursor(AMresultItem(c2), &cc)) printf(" cureq=%d", (int)AMcursorEqual(c, cc)); else printf(" cureq=err");
+    AMbyteSpan cb = AMcursorBytes(c); AMresult *c3 = AMcursorFromBytes(cb.src, cb.count);
+    printf(" curbytes=%s", AMresultStatus(c3) == AM_STATUS_OK ? "ok" : "err");
+    release(c3); release(c2);
+    printf(" %s", st(AMspliceText(d, t, 0, 0, AMstr("ab"))));
+    commit(r);
+    AMresult *cq = AMgetCursorPosition(d, t, c, NULL); printf(" pos2="); if (AMresultStatus(cq) == AM_STATUS_OK) print_item(AMresultItem(cq)); else printf("err"); release(cq);
+  } else printf(" cur=err");
+  release(cu);
+  AMresult *co = AMgetCursor(d, t, 700, NULL); printf(" curfar=%s", AMresultStatus(co) == AM_STATUS_OK ? "ok" : "err"); release(co);
+  release(hm); release(hb); release(to);
+  printf("\n");
+}
+
+static void cmd_chg(int r) {
+  AMdoc *d = docs[r];
+  AMresult *cs = AMgetChanges(d, NULL); AMitems ci = AMresultItems(cs); AMitem *it;
+  printf("C n=%zu", AMitemsSize(&ci));
+  AMbyteSpan firsth = {0};
+  while ((it = AMitemsNext(&ci, 1)) != NULL) {
+    AMchange *c = NULL; if (!AMitemToChange(it, &c)) { printf(" ?"); continue; }
+    AMbyteSpan h = AMchangeHash(c); if (!firsth.src) firsth = h;
+    printf(" "); hex(h.src, h.count);
+    AMresult *ar = AMchangeActorId(c); const AMactorId *a = NULL; AMitemToActorId(AMresultItem(ar), &a); AMbyteSpan as = AMactorIdStr(a);
+    AMbyteSpan m = AMchangeMessage(c), raw = AMchangeRawBytes(c), ex = AMchangeExtraBytes(c);
+    AMresult *dr = AMchangeDeps(c);
+    printf(":%llu:%.*s:%llu:%llu:%lld:%zu:%zu:%zu:%zu:%zu:%d", (unsigned long long)AMchangeSeq(c), (int)as.count, (const char *)as.src,
+           (unsigned long long)AMchangeStartOp(c), (unsigned long long)AMchangeMaxOp(c), (long long)AMchangeTime(c), AMchangeSize(c),
+           AMresultSize(dr), m.count, raw.count, ex.count, (int)AMchangeIsEmpty(c));
+    /* the raw bytes parse back into a change with the same hash */
+    AMresult *back = AMchangeFromBytes(raw.src, raw.count); AMchange *bc = NULL;
+    if (AMresultStatus(back) == AM_STATUS_OK && AMitemToChange(AMresultItem(back), &bc)) { AMbyteSpan bh = AMchangeHash(bc); printf(":%d", (int)(bh.count == h.count && !memcmp(bh.src, h.src, h.count))); } else printf(":err");
+    release(back); release(dr); release(ar);
+  }
+  AMresult *ll = AMgetLastLocalChange(d); printf(" last=");
+  if (AMresultStatus(ll) == AM_STATUS_OK && AMresultSize(ll) > 0) { AMchange *c = NULL; if (AMitemToChange(AMresultItem(ll), &c)) { AMbyteSpan h = AMchangeHash(c); hex(h.src, h.count); } else print_item(AMresultItem(ll)); } else printf("none");
+  release(ll);
+  if (firsth.src) {
+    AMresult *bh = AMgetChangeByHash(d, firsth.src, firsth.count); AMchange *c = NULL; printf(" byhash=");
+    if (AMresultStatus(bh) == AM_STATUS_OK && AMresultSize(bh) > 0 && AMitemToChange(AMresultItem(bh), &c)) printf("%llu", (unsigned long long)AMchangeSeq(c)); else printf("none");
+    release(bh);
+  }
+  uint8_t fake[32]; memset(fake, 0xab, sizeof fake);
+  AMresult *fh = AMitemFromChangeHash(AMbytes(fake, 32)); AMitems fi = AMresultItems(fh);
+  AMresult *md = AMgetMissingDeps(d, &fi); AMitems mi = AMresultItems(md); printf(" missing=");
+  while ((it = AMitemsNext(&mi, 1)) != NULL) { print_item(it); printf(";"); }
+  release(md); release(fh);
+  AMresult *nb = AMgetChangeByHash(d, fake, 32); printf(" nohash="); if (AMresultStatus(nb) == AM_STATUS_OK) print_item(AMresultItem(nb)); else printf("err"); release(nb);
+  release(cs);
+  printf("\n");
+}
+
+static void cmd_apply(int r) {
+  AMdoc *d = docs[r];
+  uint8_t ab = 77; AMresult *ar = AMactorIdFromBytes(&ab, 1); const AMactorId *aid = NULL; AMitemToActorId(AMresultItem(ar), &aid);
+  AMresult *nr = AMcreate(aid); AMdoc *n = NULL; AMitemToDoc(AMresultItem(nr), &n);
+  AMresult *cs = AMgetChanges(d, NULL); AMitems ci = AMresultItems(cs);
+  printf("A %s", st(AMapplyChanges(n, &ci)));
+  printf(" eq=%d heads=", (int)AMequal(n, d)); print_heads(n);
+  /* AMload of the saved bytes, and AMloadIncremental into an empty document */
+  AMresult *sv = AMsave(d); AMbyteSpan sb = {0}; AMitemToBytes(AMresultItem(sv), &sb);
+  AMresult *lr = AMload(sb.src, sb.count); AMdoc *l = NULL;
+  if (AMresultStatus(lr) == AM_STATUS_OK && AMitemToDoc(AMresultItem(lr), &l)) printf(" loadeq=%d", (int)AMequal(l, d)); else printf(" load=err");
+  AMresult *er = AMcreate(aid); AMdoc *e = NULL; AMitemToDoc(AMresultItem(er), &e);
+  AMresult *li = AMloadIncremental(e, sb.src, sb.count); printf(" inc="); if (AMresultStatus(li) == AM_STATUS_OK) print_item(AMresultItem(li)); else printf("err"); release(li);
+  printf(" inceq=%d", (int)AMequal(e, d));
+  AMresult *si = AMsaveIncremental(d); AMbyteSpan ib = {0}; if (AMitemToBytes(AMresultItem(si), &ib)) printf(" saveinc=%zu", ib.count); else printf(" saveinc=?"); release(si);
+  AMresult *added = AMgetChangesAdded(n, d); printf(" added=%zu", AMresultSize(added)); release(added);
+  /* a truncated image is an error, not a crash */
+  AMresult *bad = AMload(sb.src, sb.count > 9 ? sb.count - 9 : 0); printf(" trunc=%s", AMresultStatus(bad) == AM_STATUS_OK ? "ok" : "err"); release(bad);
+  release(sv); release(cs);
+  release(lr);
+  release(er); release(nr); release(ar);
+  printf("\n");
+}
+
+static void cmd_fork(int r) {
+  AMdoc *d = docs[r];
+  AMresult *hb = AMgetHeads(d); AMitems hbi = AMresultItems(hb);
+  AMresult *p0 = AMmapPutInt(d, AM_ROOT, AMstr("fa"), 1); release(p0); commit(r);
+  AMresult *fr = AMfork(d, NULL); AMdoc *f = NULL; AMitemToDoc(AMresultItem(fr), &f);
+  uint8_t ab = 0x63; AMresult *ar = AMactorIdFromBytes(&ab, 1); const AMactorId *aid = NULL; AMitemToActorId(AMresultItem(ar), &aid);
+  printf("F %s", st(AMsetActorId(f, aid)));
+  AMresult *ga = AMgetActorId(f); const AMactorId *ga2 = NULL; AMitemToActorId(AMresultItem(ga), &ga2); AMbyteSpan gs = AMactorIdStr(ga2);
+  printf(" actor=%.*s cmp=%d", (int)gs.count, (const char *)gs.src, AMactorIdCmp(aid, ga2)); release(ga);
+  printf(" %s", st(AMmapPutInt(f, AM_ROOT, AMstr("fk"), 5)));
+  { int64_t t = 0; AMresult *c = AMcommit(f, AMstr("forked"), &t); printf(" commit="); if (AMresultStatus(c) == AM_STATUS_OK) print_item(AMresultItem(c)); else printf("err"); release(c); }
+  /* fork at the earlier heads: its state is the earlier state */
+  AMresult *f2r = AMfork(d, &hbi); AMdoc *f2 = NULL;
+  if (AMresultStatus(f2r) == AM_STATUS_OK && AMitemToDoc(AMresultItem(f2r), &f2)) {
+    uint8_t ab2 = 0x64; AMresult *ar2 = AMactorIdFromBytes(&ab2, 1); const AMactorId *aid2 = NULL; AMitemToActorId(AMresultItem(ar2), &aid2);
+    release(AMsetActorId(f2, aid2)); release(ar2);
+    printf(" forkat="); print_heads(f2);
+    AMresult *g = AMmapGet(f2, AM_ROOT, AMstr("fa"), NULL); printf("/"); if (AMresultStatus(g) == AM_STATUS_OK) print_item(AMresultItem(g)); else printf("err"); release(g);
+  } else printf(" forkat=err");
+  printf(" %s heads=", st(AMmerge(d, f))); print_heads(d);
+  AMresult *cl = AMclone(d); AMdoc *c = NULL; AMitemToDoc(AMresultItem(cl), &c);
+  printf(" cloneeq=%d forkeq=%d", (int)AMequal(c, d), (int)AMequal(f, d));
+  { int64_t t = 3; AMresult *e = AMemptyChange(c, AMstr("empty"), &t); printf(" empty="); if (AMresultStatus(e) == AM_STATUS_OK) print_item(AMresultItem(e)); else printf("err"); release(e); }
+  printf(" cloneeq2=%d", (int)AMequal(c, d));
+  release(cl); release(f2r); release(ar); release(fr); release(hb);
+  printf("\n");
+}
+
+static void cmd_edge(int r) {
+  AMdoc *d = docs[r];
+  AMresult *hold; const AMobjId *l = list_of(r, &hold);
+  printf("G");
+  if (l) {
+    size_t n = AMobjSize(d, l, NULL);
+    printf(" n=%zu %s", n, st(AMlistPutInt(d, l, SIZE_MAX, true, 99)));
+    printf(" %s", st(AMlistPutInt(d, l, SIZE_MAX, false, 98)));
+    printf(" %s", st(AMlistIncrement(d, l, SIZE_MAX, -3)));
+    printf(" %s", st(AMlistPutCounter(d, l, 0, true, 10)));
+    printf(" %s", st(AMlistIncrement(d, l, 0, -3)));
+    printf(" %s", st(AMlistPutInt(d, l, n + 7, false, 1)));
+    printf(" %s", st(AMlistPutInt(d, l, n + 7, true, 1)));
+    printf(" %s", st(AMlistDelete(d, l, n + 7)));
+    printf(" %s", st(AMlistDelete(d, l, SIZE_MAX)));
+    printf(" %s", st(AMlistPutStr(d, l, 1, true, AMstr("s\xe2\x82\xac"))));
+    printf(" %s", st(AMlistPutBool(d, l, 1, true, false)));
+    printf(" %s", st(AMlistPutNull(d, l, 1, false)));
+    printf(" %s", st(AMlistPutUint(d, l, 1, true, 3)));
+    printf(" %s", st(AMlistPutTimestamp(d, l, 1, true, 1234567)));
+    static const uint8_t by[2] = {9, 8};
+    printf(" %s", st(AMlistPutBytes(d, l, 1, true, AMbytes(by, 2))));
+    AMresult *no = AMlistPutObject(d, l, 0, true, AM_OBJ_TYPE_MAP);
+    if (AMresultStatus(no) == AM_STATUS_OK) { const AMobjId *m = AMitemObjId(AMresultItem(no)); printf(" nested=%s", st(AMmapPutInt(d, m, AMstr("x"), 1))); printf("/%zu", AMobjSize(d, m, NULL)); } else printf(" nested=err");
+    release(no);
+    commit(r);
+    AMresult *g = AMlistGet(d, l, n + 70, NULL); printf(" far=%s", AMresultStatus(g) == AM_STATUS_OK ? "ok" : "err"); release(g);
+    AMresult *g2 = AMlistGet(d, l, SIZE_MAX, NULL); printf(" last="); if (AMresultStatus(g2) == AM_STATUS_OK && AMresultSize(g2)) print_item(AMresultItem(g2)); else printf("none"); release(g2);
+    AMresult *r1 = AMlistRange(d, l, 1, 1, NULL); printf(" r11=%s/%zu", AMresultStatus(r1) == AM_STATUS_OK ? "ok" : "err", AMresultSize(r1)); release(r1);
+    AMresult *r2 = AMlistRange(d, l, 2, 1, NULL); printf(" r21=%s", AMresultStatus(r2) == AM_STATUS_OK ? "ok" : "err"); release(r2);
+    AMresult *r3 = AMlistRange(d, l, 1, 3, NULL); AMitems ri = AMresultItems(r3); AMitem *it; printf(" r13=");
+    while ((it = AMitemsNext(&ri, 1)) != NULL) { size_t pos = 0; AMitemPos(it, &pos); printf("%zu=", pos); print_item(it); printf(";"); }
+    /* the same items backwards, then rewound */
+    AMitems rw = AMitemsRewound(&ri); AMitems rev = AMitemsReversed(&rw); printf(" rev=");
+    while ((it = AMitemsNext(&rev, 1)) != NULL) { print_item(it); printf(";"); }
+    AMitems rw2 = AMitemsRewound(&ri); AMitemsAdvance(&rw2, 1); it = AMitemsNext(&rw2, 1); printf(" adv="); if (it) print_item(it); else printf("none");
+    it = AMitemsPrev(&rw2, 1); printf(" prev="); if (it) print_item(it); else printf("none");
+    printf(" size=%zu eq=%d", AMitemsSize(&ri), (int)AMitemsEqual(&rw, &ri));
+    release(r3);
+    AMresult *oi = AMobjItems(d, l, NULL); printf(" items=%zu", AMresultSize(oi)); release(oi);
+  }
+  /* transaction rollback leaves no trace */
+  AMresult *p = AMmapPutInt(d, AM_ROOT, AMstr("zz"), 1); release(p);
+  printf(" pend=%zu", AMpendingOps(d)); printf(" rb=%zu", AMrollback(d)); printf(" pend=%zu", AMpendingOps(d));
+  AMresult *gz = AMmapGet(d, AM_ROOT, AMstr("zz"), NULL); printf(" zz="); if (AMresultStatus(gz) == AM_STATUS_OK) print_item(AMresultItem(gz)); else printf("err"); release(gz);
+  AMresult *mr = AMmapRange(d, AM_ROOT, AMstr("k"), AMstr("l"), NULL); AMitems mi = AMresultItems(mr); AMitem *it; printf(" range=");
+  while ((it = AMitemsNext(&mi, 1)) != NULL) { AMbyteSpan k = {0}; AMitemKey(it, &k); printf("%.*s=", (int)k.count, (const char *)k.src); print_item(it); printf(";"); }
+  release(mr);
+  AMresult *mr2 = AMmapRange(d, AM_ROOT, AMstr(NULL), AMstr(NULL), NULL); printf(" all=%zu", AMresultSize(mr2)); release(mr2);
+  AMresult *mr3 = AMmapRange(d, AM_ROOT, AMstr("z"), AMstr("a"), NULL); printf(" revrange=%s", AMresultStatus(mr3) == AM_STATUS_OK ? "ok" : "err"); release(mr3);
+  release(hold);
+  printf("\n");
+}
+
+static void cmd_errs(int r) {
+  AMdoc *d = docs[r];
+  static const uint8_t junk[12] = {0x85, 0x6f, 0x4a, 0x83, 1, 2, 3, 4, 1, 200, 200, 3};
+  AMresult *hold; const AMobjId *l = list_of(r, &hold);
+  printf("Q %s", st(AMload(junk, sizeof junk)));
+  printf(" %s", st(AMload(junk, 0)));
+  printf(" %s", st(AMchangeFromBytes(junk, sizeof junk)));
+  printf(" %s", st(AMsyncMessageDecode(junk, sizeof junk)));
+  printf(" %s", st(AMsyncStateDecode(junk, sizeof junk)));
+  printf(" %s", st(AMactorIdFromStr(AMstr("zz"))));
+  printf(" %s", st(AMactorIdFromStr(AMstr("0a0b"))));
+  printf(" %s", st(AMcursorFromStr(AMstr("junk"))));
+  printf(" %s", st(AMcursorFromBytes(junk, 3)));
+  printf(" %s", st(AMloadIncremental(d, junk, sizeof junk)));
+  printf(" %s", st(AMlistPutInt(d, AM_ROOT, 0, true, 1)));
+  if (l) {
+    printf(" %s", st(AMmapPutInt(d, l, AMstr("k"), 1)));
+    printf(" %s", st(AMspliceText(d, l, 0, 0, AMstr("x"))));
+    printf(" %s", st(AMmapIncrement(d, l, AMstr("k"), 1)));
+    printf(" %s", st(AMmarks(d, l, NULL)));
+  }
+  printf(" %s", st(AMmapIncrement(d, AM_ROOT, AMstr("nokey"), 1)));
+  printf(" %s", st(AMmapDelete(d, AM_ROOT, AMstr("nokey"))));
+  AMresult *g = AMmapGet(d, AM_ROOT, AMstr("nokey"), NULL); printf(" get="); if (AMresultStatus(g) == AM_STATUS_OK) { printf("ok/"); print_item(AMresultItem(g)); } else printf("err"); release(g);
+  AMresult *bad = AMitemFromChangeHash(AMbytes(junk, 5)); printf(" hash5=%s", AMresultStatus(bad) == AM_STATUS_OK ? "ok" : "err"); release(bad);
+  uint8_t bytes33[33] = {0}; AMresult *b33 = AMgetChangeByHash(d, bytes33, 33); printf(" hash33=%s", AMresultStatus(b33) == AM_STATUS_OK ? "ok" : "err"); release(b33);
+  AMrollback(d);
+  release(hold);
+  printf("\n");
+}
+
+static void cmd_sync(int r, int s) {
+  AMresult *s1r = AMsyncStateInit(), *s2r = AMsyncStateInit();
+  AMsyncState *s1 = NULL, *s2 = NULL; AMitemToSyncState(AMresultItem(s1r), &s1); AMitemToSyncState(AMresultItem(s2r), &s2);
+  printf("Y");
+  for (int round = 0; round < 12; round++) {
+    int quiet = 1;
+    for (int dir = 0; dir < 2; dir++) {
+      AMdoc *from = dir == 0 ? docs[r] : docs[s], *to = dir == 0 ? docs[s] : docs[r];
+      AMsyncState *fs = dir == 0 ? s1 : s2, *ts = dir == 0 ? s2 : s1;
+      AMresult *mr = AMgenerateSyncMessage(from, fs); const AMsyncMessage *m = NULL;
+      if (AMresultStatus(mr) == AM_STATUS_OK && AMresultSize(mr) > 0 && AMitemToSyncMessage(AMresultItem(mr), &m)) {
+        quiet = 0;
+        AMresult *enc = AMsyncMessageEncode(m); AMbyteSpan eb = {0}; AMitemToBytes(AMresultItem(enc), &eb);
+        printf(" %c:", dir == 0 ? '>' : '<'); hex(eb.src, eb.count);
+        AMresult *hs = AMsyncMessageHeads(m), *ns = AMsyncMessageNeeds(m), *hv = AMsyncMessageHaves(m);
+        printf("/%zu/%zu/%zu", AMresultSize(hs), AMresultSize(ns), AMresultSize(hv)); release(hs); release(ns); release(hv);
+        /* decode the bytes again and deliver the decoded message */
+        AMresult *dec = AMsyncMessageDecode(eb.src, eb.count); const AMsyncMessage *dm = NULL;
+        if (AMresultStatus(dec) == AM_STATUS_OK && AMitemToSyncMessage(AMresultItem(dec), &dm)) printf("/%s", st(AMreceiveSyncMessage(to, ts, dm))); else printf("/decerr");
+        release(dec); release(enc);
+      }
+      release(mr);
+    }
+    if (quiet) break;
+  }
+  printf(" h1="); print_heads(docs[r]); printf(" h2="); print_heads(docs[s]);
+  AMresult *e1 = AMsyncStateEncode(s1); AMbyteSpan eb = {0}; AMitemToBytes(AMresultItem(e1), &eb); printf(" st="); hex(eb.src, eb.count);
+  AMresult *d1 = AMsyncStateDecode(eb.src, eb.count); AMsyncState *ds = NULL;
+  if (AMresultStatus(d1) == AM_STATUS_OK && AMitemToSyncState(AMresultItem(d1), &ds)) { AMresult *sh = AMsyncStateSharedHeads(ds); printf(" shared=%zu", AMresultSize(sh)); release(sh); } else printf(" shared=err");
+  release(d1); release(e1);
+  printf(" eq=%d\n", (int)AMequal(docs[r], docs[s]));
+  release(s1r); release(s2r);
 }
 
 static void obs(int r) {
@@ -95,7 +418,7 @@ static void obs(int r) {
     AMitems ai = AMresultItems(all); AMitem *v; int f2 = 1;
     while ((v = AMitemsNext(&ai, 1)) != NULL) { if (!f2) printf("|"); f2 = 0; print_item(v); }
     /* walk the same items backwards as well (iterator API) */
-    AMitems rev = AMitemsReversed(&ai); size_t nrev = 0; while (AMitemsNext(&rev, 1) != NULL) nrev++;
+    AMitems rw = AMitemsRewound(&ai); AMitems rev = AMitemsReversed(&rw); size_t nrev = 0; while (AMitemsNext(&rev, 1) != NULL) nrev++;
     printf("]#%zu", nrev);
     release(all);
   }
@@ -110,6 +433,24 @@ static void obs(int r) {
     printf("]");
     release(rg);
     for (size_t i = 0; i < n; i++) { AMresult *g = AMlistGetAll(docs[r], l, i, NULL); printf("/%zu", AMresultSize(g)); release(g); }
+    if (baseheads) {
+      /* historical reads at the heads of the base change */
+      AMitems bh = AMresultItems(baseheads);
+      size_t nh = AMobjSize(docs[r], l, &bh);
+      printf(" H%zu=[", nh);
+      for (size_t i = 0; i < nh; i++) {
+        AMresult *g = AMlistGet(docs[r], l, i, &bh);
+        if (AMresultStatus(g) == AM_STATUS_OK) print_item(AMresultItem(g)); else printf("err");
+        printf(";"); release(g);
+      }
+      printf("]");
+      AMresult *hr = AMlistRange(docs[r], l, 0, SIZE_MAX, &bh); AMitems hi = AMresultItems(hr); int f4 = 1;
+      while ((it = AMitemsNext(&hi, 1)) != NULL) { if (!f4) printf(","); f4 = 0; print_item(it); }
+      release(hr);
+      AMresult *ga = AMlistGetAll(docs[r], l, 0, &bh), *gk = AMmapGetAll(docs[r], AM_ROOT, AMstr("k1"), &bh), *kk = AMkeys(docs[r], AM_ROOT, &bh);
+      printf("/%zu/%zu/%zu", AMresultStatus(ga) == AM_STATUS_OK ? AMresultSize(ga) : 0, AMresultStatus(gk) == AM_STATUS_OK ? AMresultSize(gk) : 0, AMresultSize(kk));
+      release(ga); release(gk); release(kk);
+    }
   }
   release(hold);
   printf("\n");
@@ -125,6 +466,8 @@ int main(void) {
       /* end of one program: free what was kept (newest first), then the documents */
       while (nkept > 0) AMresultFree(kept[--nkept]);
       for (int i = 0; i < MAXDOC; i++) { if (docres[i]) AMresultFree(docres[i]); docres[i] = NULL; docs[i] = NULL; }
+      if (baseheads) AMresultFree(baseheads);
+      baseheads = NULL;
       printf("X\n");
       continue;
     }
@@ -138,10 +481,20 @@ int main(void) {
       AMresult *lo = AMmapPutObject(docs[r], AM_ROOT, AMstr("l"), AM_OBJ_TYPE_LIST); check(lo, "base");
       const AMobjId *l = AMitemObjId(AMresultItem(lo));
       release(AMlistPutCounter(docs[r], l, 0, true, 1)); release(AMlistPutInt(docs[r], l, 1, true, 7));
-      commit(r); release(lo); continue;
+      commit(r); release(lo);
+      if (baseheads) AMresultFree(baseheads);
+      baseheads = AMgetHeads(docs[r]); continue;
     }
     if (!strcmp(cmd, "merge")) { sscanf(line, "%*s %d %d", &r, &s); AMresult *m = AMmerge(docs[r], docs[s]); check(m, "merge"); release(m); continue; }
     if (!strcmp(cmd, "obs")) { sscanf(line, "%*s %d", &r); obs(r); continue; }
+    if (!strcmp(cmd, "scal")) { sscanf(line, "%*s %d", &r); cmd_scal(r); continue; }
+    if (!strcmp(cmd, "text")) { sscanf(line, "%*s %d", &r); cmd_text(r); continue; }
+    if (!strcmp(cmd, "chg")) { sscanf(line, "%*s %d", &r); cmd_chg(r); continue; }
+    if (!strcmp(cmd, "apply")) { sscanf(line, "%*s %d", &r); cmd_apply(r); continue; }
+    if (!strcmp(cmd, "fork")) { sscanf(line, "%*s %d", &r); cmd_fork(r); continue; }
+    if (!strcmp(cmd, "edge")) { sscanf(line, "%*s %d", &r); cmd_edge(r); continue; }
+    if (!strcmp(cmd, "errs")) { sscanf(line, "%*s %d", &r); cmd_errs(r); continue; }
+    if (!strcmp(cmd, "sync")) { sscanf(line, "%*s %d %d", &r, &s); cmd_sync(r, s); continue; }
     if (!strcmp(cmd, "mput")) {
       sscanf(line, "%*s %d %63s %3s %lld", &r, key, kind, &a);
       AMresult *p = kind[0] == 'c' ? AMmapPutCounter(docs[r], AM_ROOT, AMstr(key), a) : AMmapPutInt(docs[r], AM_ROOT, AMstr(key), a);
@@ -168,5 +521,6 @@ int main(void) {
   while (nkept > 0) AMresultFree(kept[--nkept]);
   free(kept);
   for (int i = 0; i < MAXDOC; i++) if (docres[i]) AMresultFree(docres[i]);
+  if (baseheads) AMresultFree(baseheads);
   return 0;
 }
